@@ -81,6 +81,19 @@ func genTriangles(n int, coords string, seed uint64) []*sdf.Triangle3 {
 		for k := 0; k < 3; k++ {
 			if len(pool) > 0 && r.Intn(4) == 0 {
 				t[k] = pool[r.Intn(len(pool))] // shared vertex
+			} else if len(pool) > 0 && r.Intn(5) == 0 {
+				// near-duplicate: a vertex a hair away from an earlier one, often
+				// across a decimal rounding boundary (exercises de-duplication)
+				b := pool[r.Intn(len(pool))]
+				d := []float64{0, 1e-7, -1e-7, 3e-6, -3e-6, 2e-5, -2e-5, 4e-5, -4e-5, 6e-5, -6e-5, 1e-4}
+				snap := func(v float64) float64 {
+					if r.Intn(2) == 0 && math.Abs(v) < 1e6 {
+						v = math.Round(v*1e4)/1e4 + 5e-5 // sit on a 4-decimal rounding boundary
+					}
+					return v + d[r.Intn(len(d))]
+				}
+				t[k] = v3.Vec{X: snap(b.X), Y: snap(b.Y), Z: snap(b.Z)}
+				pool = append(pool, t[k])
 			} else {
 				t[k] = v3.Vec{X: wildFloat(r, cls), Y: wildFloat(r, cls), Z: wildFloat(r, cls)}
 				pool = append(pool, t[k])
